@@ -390,6 +390,24 @@ pub fn monitor(o: &Obs) -> Result<(), String> {
     if o.closed && o.polled_after_close && !o.done && o.panicked.is_none() && !o.last_sink_pending {
         return Err("C16: the registration channel is closed and no sink is pending, yet the router did not finish when polled".into());
     }
+    // C02 / C08 (Sink contract): a frame is only handed to a sink that has just reported readiness — handing one to a
+    // sink that answered Pending is how a slow peer's frame gets dropped (or its back-pressure ignored)
+    {
+        let mut ready: BTreeMap<usize, bool> = BTreeMap::new();
+        for e in &o.events {
+            match e {
+                Ev::SinkReady(i, a) => { ready.insert(*i, *a == A::Ready); }
+                Ev::SinkSend(i, f, _) => {
+                    if !ready.get(i).copied().unwrap_or(false) {
+                        let who = if *i >= V { format!("replier v{}", *i - V) } else { format!("requestor k{i}") };
+                        return Err(format!("C02/C08: {} was handed to the sink of {who}, which had not reported readiness (its last poll_ready answered Pending or it was never asked)", frame_tok(f)));
+                    }
+                    ready.insert(*i, false);
+                }
+                _ => {}
+            }
+        }
+    }
     // C09 / C16
     if o.sleeping_for_good && o.closed && !o.done && !o.last_any_child_pending { return Err("C16: the registration channel is closed and nothing is pending, yet the router sleeps instead of finishing".into()); }
     Ok(())
